@@ -51,6 +51,11 @@ func (c *unlambdaChecker) VisitExpr(x ast.Expr) {
 	if isBuiltin(callable) {
 		return // See #762
 	}
+	if c.isGenericFunc(result.Fun) {
+		// A generic function can't be used as a value without instantiation
+		// (unless the context provides its type).
+		return
+	}
 	hasVars := lintutil.ContainsNode(result.Fun, func(n ast.Node) bool {
 		id, ok := n.(*ast.Ident)
 		if !ok {
@@ -94,6 +99,21 @@ func (c *unlambdaChecker) VisitExpr(x ast.Expr) {
 	if c.lenArgs(result.Args) == n {
 		c.warn(fn, callable)
 	}
+}
+
+func (c *unlambdaChecker) isGenericFunc(fn ast.Expr) bool {
+	var id *ast.Ident
+	switch fn := fn.(type) {
+	case *ast.Ident:
+		id = fn
+	case *ast.SelectorExpr:
+		id = fn.Sel
+	}
+	if id == nil {
+		return false
+	}
+	_, ok := c.ctx.TypesInfo.Instances[id]
+	return ok
 }
 
 func (c *unlambdaChecker) warn(cause ast.Node, suggestion string) {
